@@ -96,7 +96,7 @@ pub fn gen_e(t: &mut Tape, sc: &Scope, ty: Ty, depth: usize) -> E {
     }
     let d = depth - 1;
     match ty {
-        Ty::N => match t.pick(23) {
+        Ty::N => match t.pick(25) {
             0 | 1 => leaf(t, sc, ty),
             2 | 3 | 4 => {
                 let op = [Op::Add, Op::Sub, Op::Mul, Op::Div, Op::Mod, Op::Pow, Op::Add, Op::Mul][t.pick(8)];
@@ -141,6 +141,17 @@ pub fn gen_e(t: &mut Tape, sc: &Scope, ty: Ty, depth: usize) -> E {
                 call(E::BuiltIn("convert".into()), vec![gen_e(t, sc, Ty::N, d), E::Str(from.into()), E::Str(to.into())])
             }
             19 => call(E::BuiltIn("sqrt".into()), vec![E::Neg(b(n(1.0)))]),
+            23 => call(E::BuiltIn("len".into()), vec![gen_e(t, sc, Ty::S, d)]),
+            24 => {
+                // unorderable values of one type in a sorted list, observed through the first element
+                match t.pick(2) {
+                    0 => call(E::Index(b(call(E::BuiltIn("sort".into()), vec![E::List(vec![gen_e(t, sc, Ty::F, d), gen_e(t, sc, Ty::F, d)])])), b(n(0.0))), vec![gen_e(t, sc, Ty::N, d)]),
+                    _ => {
+                        let rows = E::List(vec![E::List(vec![gen_e(t, sc, Ty::N, d), E::Str("b".into())]), E::List(vec![E::Str("a".into()), gen_e(t, sc, Ty::N, d)]), E::List(vec![gen_e(t, sc, Ty::N, 0), E::Bool(true)])]);
+                        call(E::BuiltIn("len".into()), vec![call(E::BuiltIn("to_string".into()), vec![call(E::BuiltIn("sort".into()), vec![rows])])])
+                    }
+                }
+            }
             21 => {
                 // order-dependent observation on a sorted list of records (records have no order:
                 // a stable sort leaves them as written)
@@ -188,13 +199,21 @@ pub fn gen_e(t: &mut Tape, sc: &Scope, ty: Ty, depth: usize) -> E {
             }
             _ => call(E::BuiltIn(["every", "some"][t.pick(2)].into()), vec![gen_e(t, sc, Ty::L, d), E::Lambda(vec![P::Req("q".into())], b(bin(Op::Gt, id("q"), gen_e(t, sc, Ty::N, 0))))]),
         },
-        Ty::S => match t.pick(8) {
+        Ty::S => match t.pick(9) {
             0 | 1 => leaf(t, sc, ty),
             2 => bin(Op::Add, gen_e(t, sc, Ty::S, d), gen_e(t, sc, Ty::S, d)),
             3 => call(E::BuiltIn("to_string".into()), vec![gen_e(t, sc, Ty::N, d)]),
             4 => E::If(b(gen_e(t, sc, Ty::B, d)), b(gen_e(t, sc, Ty::S, d)), b(gen_e(t, sc, Ty::S, d))),
             5 => call(E::BuiltIn(["uppercase", "lowercase", "trim"][t.pick(3)].into()), vec![gen_e(t, sc, Ty::S, d)]),
             6 => call(E::BuiltIn("join".into()), vec![id("ls"), gen_e(t, sc, Ty::S, 0)]),
+            8 => {
+                // strings (also multi-line ones) bound and used inside a do-block
+                let mut sc2 = sc.clone();
+                let name = sc2.fresh_name("w");
+                let init = gen_e(t, sc, Ty::S, d);
+                sc2.strs.push(name.clone());
+                E::Do(vec![E::Assign(name, b(init))], b(bin(Op::Add, gen_e(t, &sc2, Ty::S, d), gen_e(t, &sc2, Ty::S, 0))))
+            }
             _ => {
                 let ty2 = [Ty::N, Ty::L, Ty::R, Ty::F][t.pick(4)];
                 call(E::BuiltIn("typeof".into()), vec![gen_e(t, sc, ty2, d)])
